@@ -402,8 +402,9 @@ class Probe:
     """Data object with separate attribute and item tables (attribute syntax must prefer
     attributes, subscript syntax items).  Entries may be Raisers: fetching them raises."""
 
-    def __init__(self, oid, attrs, items, strval=None):
+    def __init__(self, oid, attrs, items, strval=None, boolval=None):
         object.__setattr__(self, "_jv_id", oid)
+        object.__setattr__(self, "_jv_bool", boolval)
         object.__setattr__(self, "_jv_items", items)
         object.__setattr__(self, "_jv_araise", {k: v for k, v in attrs.items() if isinstance(v, Raiser)})
         object.__setattr__(self, "_jv_str", strval)
@@ -430,6 +431,14 @@ class Probe:
         if isinstance(sv, Raiser):
             sv.fire("__str__")
         return sv
+
+    def __bool__(self):
+        bv = self._jv_bool
+        if bv is None:
+            return True
+        if isinstance(bv, Raiser):
+            bv.fire("__bool__")
+        return bool(bv)
 
     def __repr__(self):
         return f"<Probe {self._jv_id}>"
@@ -487,7 +496,8 @@ def to_py(v, objs, log, cache=None, async_fns=False):
             o = objs[v["id"]]
             cache[v["id"]] = Probe(v["id"], {k: to_py(x, objs, log, cache, async_fns) for k, x in o["attrs"].items()},
                                    {k: to_py(x, objs, log, cache, async_fns) for k, x in o["items"].items()},
-                                   to_py(o["str"], objs, log, cache, async_fns) if "str" in o else None)
+                                   to_py(o["str"], objs, log, cache, async_fns) if "str" in o else None,
+                                   to_py(o["bool"], objs, log, cache, async_fns) if "bool" in o else None)
         return cache[v["id"]]
     if t == "fn":
         f = (AsyncRecFn if async_fns else RecFn)(v["id"], v["mode"], to_py(v["ret"], objs, log, cache, async_fns), log)
